@@ -149,6 +149,12 @@ theorem kwContains_pick : Spec.kwContains sub (pick sel n) j = gateK (sel .conta
   · exact kwContains_absent sub _ j (by simp [pick, h])
   · simp [gateK, Spec.kwContains, pick, h]
 
+theorem kwContains_vocab_pick (d : Draft) :
+    Spec.kwContains sub (Spec.vocab d (pick sel n)) j = gateK (sel .contains) (Spec.kwContains sub (Spec.vocab d n) j) := by
+  cases h : sel .contains
+  · exact kwContains_absent sub _ j (by simp [pick, h, Spec.vocab])
+  · simp [gateK, Spec.kwContains, pick, h, Spec.vocab]
+
 theorem kwProps_pick : Spec.kwProps env sub (pick sel n) j = gateK (sel .props) (Spec.kwProps env sub n j) := by
   cases h : sel .props
   · exact kwProps_absent env sub _ j (by simp [pick, h]) (by simp [pick, h]) (by simp [pick, h])
@@ -292,10 +298,10 @@ theorem specBody_nouneval (env : Spec.Env) (rec : Spec.Rec) (scope : List NodeId
   unfold specBody seqConj gateA
   rw [h7]
   simp only [Bool.false_eq_true, if_false]
-  have e1 : Spec.kwUnevaluatedItems (rec (scope ++ [s])) n j = fun _ => some (some {}) :=
-    funext fun ev => kwUnevaluatedItems_absent _ n j ev hu.items
-  have e2 : Spec.kwUnevaluatedProps (rec (scope ++ [s])) n j = fun _ => some (some {}) :=
-    funext fun ev => kwUnevaluatedProps_absent _ n j ev hu.props
+  have e1 : Spec.kwUnevaluatedItems (rec (scope ++ [s])) (Spec.vocab env.draft n) j = fun _ => some (some {}) :=
+    funext fun ev => kwUnevaluatedItems_absent _ _ j ev (hu.vocab _).items
+  have e2 : Spec.kwUnevaluatedProps (rec (scope ++ [s])) (Spec.vocab env.draft n) j = fun _ => some (some {}) :=
+    funext fun ev => kwUnevaluatedProps_absent _ _ j ev (hu.vocab _).props
   rw [e1, e2]
   cases Spec.sequence (kwList env rec scope s j n) with
   | none => rfl
@@ -314,7 +320,7 @@ theorem kwList_pick (env : Spec.Env) (rec : Spec.Rec) (scope : List NodeId) (s :
     (sel : Group → Bool) :
     kwList env rec scope s j (pick sel n) = maskK (selList sel) (kwList env rec scope s j n) := by
   simp only [kwList, kwRef_pick, kwDynamicRef_pick, kwAllOf_pick, kwAnyOf_pick, kwOneOf_pick, kwNot_pick, kwIf_pick,
-    kwItems_pick, kwContains_pick, kwProps_pick, kwPropertyNames_pick, kwDependentSchemas_pick, maskK, selList,
+    kwItems_pick, kwContains_pick, kwContains_vocab_pick, kwProps_pick, kwPropertyNames_pick, kwDependentSchemas_pick, maskK, selList,
     List.zipWith_cons_cons, List.zipWith_nil_right]
 
 theorem pick_h7 (env : Spec.Env) (n : Node) (sel : Group → Bool) (h7 : (env.draft == .d7 && n.ref != "") = false) :
